@@ -139,6 +139,9 @@ class FineTuner(Trainer):
     super().__init__(**kw)
     self.rounds = rounds
 
+class DeepTuner(FineTuner):      # two levels below the class that defines `fit`
+  pass
+
 Coach = Trainer          # the same class under a second attribute name
 ''')
   # a library module that registers nested classes / methods itself (by decorator) and is then used by a
@@ -396,6 +399,12 @@ NEGATIVE = {
     'aliased_enabling': ({}, "from __gin__ import dynamic_registration as dr\n", SyntaxError,
                          'aliased_enabling_rejected'),
     'unknown_feature': ({}, "from __gin__ import no_such_feature\n", SyntaxError, 'unknown_feature_rejected'),
+    # unknown features whose dotted path merely BEGINS like the known one
+    'unknown_feature_below_known': ({}, "from __gin__.dynamic_registration import extras\nfrom c19pkg.sub import mod\nmod.fn.a = 1\n",
+                                    SyntaxError, 'unknown_feature_rejected'),
+    'unknown_feature_below_known_deep': ({}, "from __gin__.dynamic_registration.v2 import strict\n", SyntaxError,
+                                         'unknown_feature_rejected'),
+    'unknown_feature_prefixed': ({}, "from __gin__ import dynamic_registration2\n", SyntaxError, 'unknown_feature_rejected'),
     'missing_attribute': ({}, HEAD + "from c19pkg.sub import mod\nmod.nofn.a = 1\n", AttributeError,
                           'missing_attribute_rejected'),
     'missing_nested_attribute': ({}, HEAD + "from c19pkg.sub import mod\nmod.Cls.nometh.a = 1\n", AttributeError,
@@ -807,6 +816,14 @@ INHERIT = {
                                                {'rounds': 2, 'fit': ('fit', 3)}),
     'method_through_subclass_then_base': ("t.FineTuner.fit.epochs = 3\nt.Trainer.lr = 1\nt.consume.source = @t.FineTuner()\n",
                                           {'rounds': None, 'fit': ('fit', 3)}),
+    'base_referenced_method_through_subclass': ("t.consume.source = @t.Trainer()\nt.FineTuner.fit.epochs = 3\n",
+                                                {'rounds': 'n/a', 'fit': ('fit', 3)}),
+    'base_referenced_method_through_subclass_then_base': ("t.consume.source = @t.Trainer()\nt.FineTuner.fit.epochs = 7\nt.Trainer.fit.epochs = 3\n",
+                                                          {'rounds': 'n/a', 'fit': ('fit', 3)}),
+    'leaf_referenced_method_through_root': ("t.consume.source = @t.DeepTuner()\nt.Trainer.fit.epochs = 3\n",
+                                            {'rounds': None, 'fit': ('fit', 3)}),
+    'leaf_and_mid_referenced_method_through_root': ("t.consume.source = [@t.DeepTuner(), @t.FineTuner()]\nt.Trainer.fit.epochs = 3\n",
+                                                    {'rounds': None, 'fit': ('fit', 3), 'second_fit': ('fit', 3)}),
     'base_and_subclass_instances': ("t.Trainer.fit.epochs = 3\nt.FineTuner.rounds = 2\nt.consume.source = [@t.FineTuner(), @t.Trainer()]\n",
                                     {'rounds': 2, 'fit': ('fit', 3), 'second_fit': ('fit', 3)}),
 }
@@ -825,7 +842,7 @@ def run_inherit(case, res):
   def observe():
     v = gin.get_configurable(m.consume)()
     inst = v[0] if isinstance(v, list) else v
-    out = {'rounds': inst.rounds, 'fit': inst.fit()}
+    out = {'rounds': getattr(inst, 'rounds', 'n/a'), 'fit': inst.fit()}
     if isinstance(v, list):
       out['second_fit'] = v[1].fit()
     return out
